@@ -8,7 +8,7 @@ whether the tests kill it. Result per mutant: nocompile | caught:<Cnn> | silent-
 import json, os, subprocess, sys, shutil, multiprocessing as mp
 
 ORDER = ["C09", "C07", "C10", "C11", "C13", "C14", "C15", "C16", "C17", "C18", "C19", "C20", "C06", "C12", "C08", "C03", "C02", "C04", "C05", "C01"]
-BIN = "/verif/bin/mvcheck"
+BIN = os.environ.get("MUTBIN", "/verif/bin/mvcheck")
 ENV = dict(os.environ, GOPROXY="off")
 for k in ("GOFLAGS", "GOSUMDB", "GOTOOLCHAIN"):
     ENV.pop(k, None)
@@ -22,7 +22,7 @@ def sh(cmd, cwd=None, env=None, timeout=900):
 
 def worker(args):
     wid, muts, outpath = args
-    work = "/tmp/mw/%d" % wid
+    work = "/tmp/mw%s/%d" % (os.environ.get("MUTTAG", ""), wid)
     shutil.rmtree(work, ignore_errors=True)
     os.makedirs(work + "/home")
     sh("rsync -a --exclude .git /repo/ %s/repo/" % work)
